@@ -244,7 +244,7 @@ func (x *Exec) fieldLV(ptr Value, structT types.Type, i int) *LValue {
 	}
 	key, sort := fieldHeapKey(structT, i)
 	if ptr.Local != "" {
-		key = ptr.Local + "_" + st.Field(i).Name()
+		key = fmt.Sprintf("%s_%s_%d", ptr.Local, st.Field(i).Name(), i)
 		heapValType[key] = ft
 	}
 	heapSorts[key] = sort
